@@ -206,6 +206,53 @@ def _judge_from_state(sc):
     return None
 
 
+def _judge_esn(rng, tag):
+    """the ESN convenience node obeys the same three rules: run(from_state=...) starts from exactly the given states, stateful=False leaves
+    the states untouched and is repeatable, reset=True equals a run from null states"""
+    import reservoirpy as rpy
+    rpy.verbosity(0)
+    from reservoirpy.nodes import ESN
+    T, d = 5, 2
+    X = scen.fl(scengen.rows(rng, T, d)); Y = scen.fl(scengen.rows(rng, T, 1)); warm = scen.fl(scengen.rows(rng, 3, d))
+    W = scen.fl(scengen.mat(rng, 3, 3, 2, 2)); Win = scen.fl(scengen.mat(rng, 3, d, 2, 1)); Wfb = scen.fl(scengen.mat(rng, 3, 1, 2, 1))
+    s0 = scen.fl(scengen.rows(rng, 1, 3)); y0 = scen.fl(scengen.rows(rng, 1, 1))
+    for fb in (False, True):
+        sc = {"tag": tag, "kind": "esn", "fb": fb}
+        def mk(t):
+            kw = dict(units=3, W=W.copy(), Win=Win.copy(), lr=0.5, seed=5, feedback=fb, ridge=0.5, name="c8esn%s_%s_%d" % (tag, t, fb))
+            if fb:
+                kw["Wfb"] = Wfb.copy()
+            e = ESN(**kw)
+            e.fit(X, Y)
+            e.run(warm)
+            return e
+        try:
+            a, b, c = mk("a"), mk("b"), mk("c")
+            ra = a.run(X, from_state={a.reservoir.name: s0, a.readout.name: y0})
+            b.reservoir.reset(to_state=s0); b.readout.reset(to_state=y0)
+            rb = b.run(X)
+            if not np.allclose(ra, rb, rtol=1e-10, atol=1e-10) or not np.allclose(a.reservoir.state(), b.reservoir.state(), atol=1e-10):
+                return _viol("esn:from_state:wrong-start", "ESN(feedback=%s).run(from_state=s) differs from the same run on an ESN whose states were set to s" % fb,
+                             sc, np.asarray(rb).tolist(), np.asarray(ra).tolist())
+            before = (c.reservoir.state().copy(), c.readout.state().copy())
+            r1 = c.run(X, stateful=False); r2 = c.run(X, stateful=False)
+            if not np.allclose(c.reservoir.state(), before[0], atol=0) or not np.allclose(c.readout.state(), before[1], atol=0):
+                return _viol("esn:stateless:state-changed", "ESN(feedback=%s).run(stateful=False) changed the node states" % fb, sc)
+            if not np.allclose(r1, r2, atol=0):
+                return _viol("esn:stateless:not-repeatable", "ESN(feedback=%s).run(stateful=False) twice gives different results" % fb, sc)
+            r3 = c.run(X, stateful=False, from_state={c.reservoir.name: s0, c.readout.name: y0})
+            if not np.allclose(r3, rb, rtol=1e-10, atol=1e-10) or not np.allclose(c.reservoir.state(), before[0], atol=0):
+                return _viol("esn:from_state:wrong-start", "ESN(feedback=%s).run(stateful=False, from_state=s) does not start from s or does not restore the states" % fb, sc)
+            r4 = c.run(X, reset=True)
+            b.reservoir.reset(); b.readout.reset()
+            r5 = b.run(X)
+            if not np.allclose(r4, r5, rtol=1e-10, atol=1e-10):
+                return _viol("esn:reset:not-fresh", "ESN(feedback=%s).run(reset=True) differs from a run from null states" % fb, sc)
+        except Exception as ex:  # noqa: BLE001
+            return _viol("esn:exception", "ESN(feedback=%s) state control raises %r" % (fb, ex), sc)
+    return None
+
+
 def judge(case):
     sc = case["scenario"]
     return _judge(sc) or _judge_from_state(sc)
@@ -220,12 +267,19 @@ def oracle(ctx, scale=1):
         v = _judge(sc) or _judge_from_state(sc)
         if v:
             out.append(v)
-    return {"evaluations": n, "violations": out,
+    for i in range(ctx.n(3, 20)):
+        v = _judge_esn(rng, "%d_%d" % (ctx.seed, i))
+        if v:
+            out.append(v)
+    return {"evaluations": n + ctx.n(3, 20), "violations": out,
             "rule": "on the real objects: stateless operations leave state() of every node unchanged (also when a node raises) and are repeatable; "
                     "reset()/reset=True equals a fresh copy; from_state equals setting the state first"}
 
 
 def replay(payload):
     sc = payload["scenario"]
+    if sc.get("kind") == "esn":
+        vs = [v for v in (_judge_esn(core.random.Random(i), "rp%d" % i) for i in range(4)) if v]
+        return {"violates": bool(vs), "detail": vs[:1]}
     v = _judge(sc) or _judge_from_state(sc)
     return {"violates": bool(v), "detail": v}
